@@ -235,8 +235,6 @@ Qed.
 
 (* ---------------------------------------------------------------------------------------------- *)
 (* lex_faithful, raw form *)
-Definition raw_tokens (ls : list lexeme) (seps : list sep) : list token := fst (expect_all ls seps).
-Definition raw_comments (ls : list lexeme) (seps : list sep) : list comment := snd (expect_all ls seps).
 
 Theorem lex_faithful_raw max_in max_tok ls seps :
   wf ls seps ->
